@@ -200,10 +200,13 @@ fn is_pat(n: usize) -> bool {
 type Model = [[bool; NSUB]; NCONN];
 const EMPTY: Model = [[false; NSUB]; NCONN];
 
+/// connection ids: the constants 11 and 22.  Every manager operation looks ids up in sets/maps
+/// and pushes into Vecs depending on the outcome; with symbolic ids (free or base + offset: CBMC
+/// propagates constants only) every lookup forks, pushes happen under symbolic guards and CBMC
+/// runs out of memory (measured: 4 publish instances, 14 GB).  Ids are used only in `==` and as
+/// map keys, so two distinct constants stand for any two distinct ids.
 fn any_ids() -> [u64; NCONN] {
-    let ids: [u64; NCONN] = kani::any();
-    kani::assume(ids[0] != ids[1]);
-    ids
+    [11, 22]
 }
 fn count(m: &Model, c: usize) -> usize {
     m[c][0] as usize + m[c][1] as usize + m[c][2] as usize + m[c][3] as usize
@@ -372,4 +375,411 @@ fn named_case(order: &[(usize, usize)], op: Op, c: usize, names: &[usize]) -> u3
     std::mem::forget(res);
     std::mem::forget(mgr);
     w
+}
+
+// subscription indices
+const X: usize = 0;
+const Y: usize = 1;
+const P: usize = 2;
+const Q: usize = 3;
+
+/// UNSUBSCRIBE / PUNSUBSCRIBE without names: one acknowledgement per subscription of that kind,
+/// counts descending to the remaining number of subscriptions of the other kind.
+fn unsub_all_kind_case(order: &[(usize, usize)], pat: bool, c: usize) -> u32 {
+    let ids = any_ids();
+    let mut m = model_of(order);
+    let mgr = build(&m, order, &ids);
+    let before = count(&m, c);
+    let r = if pat { mgr.punsubscribe(ids[c], None) } else { mgr.unsubscribe(ids[c], None) };
+    let res = match r {
+        Ok(v) => v,
+        Err(_) => {
+            assert!(false, "(p)unsubscribe must not fail");
+            Vec::new()
+        }
+    };
+    let (lo, hi) = if pat { (P, Q) } else { (X, Y) };
+    let n_kind = m[c][lo] as usize + m[c][hi] as usize;
+    assert!(res.len() >= 1, "UNSUBSCRIBE without names is acknowledged at least once");
+    assert!(res.len() == n_kind || n_kind == 0, "one acknowledgement per subscription of the kind");
+    let mut seen = [false; NSUB];
+    let mut k = 0;
+    while k < 2 {
+        if k < res.len() && n_kind > 0 {
+            let a = &res[k];
+            assert!(a.num_subscriptions + k + 1 == before, "acknowledgement carries the connection's remaining subscription count");
+            let name = match &a.subscription {
+                Subscription::Channel(x) => {
+                    assert!(!pat, "UNSUBSCRIBE acknowledges channels");
+                    x
+                }
+                Subscription::Pattern(x) => {
+                    assert!(pat, "PUNSUBSCRIBE acknowledges patterns");
+                    x
+                }
+            };
+            let n = if bytes_eq(name, NAMES[lo]) { lo } else { hi };
+            assert!(bytes_eq(name, NAMES[n]) && m[c][n] && !seen[n], "acknowledged name was subscribed and is acknowledged once");
+            seen[n] = true;
+        }
+        k += 1;
+    }
+    m[c][lo] = false;
+    m[c][hi] = false;
+    check_state(&mgr, &m, &ids);
+    std::mem::forget(res);
+    std::mem::forget(mgr);
+    (n_kind == 2) as u32 | ((n_kind == 1 && before == 2) as u32) << 1
+}
+
+/// disconnect cleanup
+fn unsubscribe_all_case(order: &[(usize, usize)], c: usize) -> u32 {
+    let ids = any_ids();
+    let mut m = model_of(order);
+    let mgr = build(&m, order, &ids);
+    let had = count(&m, c);
+    assert!(mgr.unsubscribe_all(ids[c]).is_ok(), "unsubscribe_all must not fail");
+    m[c] = [false; NSUB];
+    check_state(&mgr, &m, &ids);
+    // the connection is in no map: nothing published anywhere can reach it any more
+    let channels = mgr.channels.lock().unwrap();
+    for (_, set) in channels.iter() {
+        assert!(!set.contains(&ids[c]), "unsubscribe_all left the connection in a channel set");
+    }
+    drop(channels);
+    let patterns = mgr.patterns.lock().unwrap();
+    for (_, set) in patterns.iter() {
+        assert!(!set.contains(&ids[c]), "unsubscribe_all left the connection in a pattern set");
+    }
+    drop(patterns);
+    std::mem::forget(mgr);
+    (had == 2) as u32 | ((had == 0) as u32) << 1 | ((had == 1 && count(&m, 1 - c) == 1) as u32) << 2
+}
+
+// ---- (ii) harnesses
+// NOT REGISTERED (does not finish within the budget, see reg/*.py): attributes removed
+// #[kani::proof]
+// #[kani::unwind(6)]
+// // NOT REGISTERED (does not finish within the budget, see reg/*.py): attributes removed
+// #[kani::stub(alloc::fmt::format, fmt_stub)]
+fn c14_subscribe_acks() {
+    let mut w = 0;
+    w |= named_case(&[], Op::Sub, 0, &[X]);
+    w |= named_case(&[], Op::Sub, 0, &[X, Y]);
+    w |= named_case(&[(0, X)], Op::Sub, 0, &[X]);
+    w |= named_case(&[(0, P)], Op::Sub, 0, &[Y]);
+    w |= named_case(&[(0, X)], Op::Sub, 1, &[X]);
+    w |= named_case(&[], Op::Sub, 0, &[X, X]);
+    kani::cover!(w & 1 != 0, "duplicate subscription acknowledged");
+    kani::cover!(w & 2 != 0, "new subscription acknowledged");
+}
+// NOT REGISTERED (does not finish within the budget, see reg/*.py): attributes removed
+// #[kani::proof]
+// #[kani::unwind(6)]
+// // NOT REGISTERED (does not finish within the budget, see reg/*.py): attributes removed
+// #[kani::stub(alloc::fmt::format, fmt_stub)]
+fn c14_psubscribe_acks() {
+    let mut w = 0;
+    w |= named_case(&[], Op::PSub, 0, &[P]);
+    w |= named_case(&[], Op::PSub, 0, &[P, Q]);
+    w |= named_case(&[(0, P)], Op::PSub, 0, &[P]);
+    w |= named_case(&[(0, X)], Op::PSub, 0, &[Q]);
+    w |= named_case(&[(0, P)], Op::PSub, 1, &[P]);
+    kani::cover!(w & 1 != 0, "duplicate subscription acknowledged");
+    kani::cover!(w & 2 != 0, "new subscription acknowledged");
+}
+// NOT REGISTERED (does not finish within the budget, see reg/*.py): attributes removed
+// #[kani::proof]
+// #[kani::unwind(6)]
+// // NOT REGISTERED (does not finish within the budget, see reg/*.py): attributes removed
+// #[kani::stub(alloc::fmt::format, fmt_stub)]
+fn c14_unsubscribe_acks() {
+    let mut w = 0;
+    w |= named_case(&[(0, X)], Op::Unsub, 0, &[X]);
+    w |= named_case(&[(0, X), (0, Y)], Op::Unsub, 0, &[X]);
+    w |= named_case(&[(0, X), (0, P)], Op::Unsub, 0, &[X]);
+    w |= named_case(&[(0, X), (1, X)], Op::Unsub, 0, &[X]);
+    w |= named_case(&[(0, X)], Op::Unsub, 0, &[Y]);
+    w |= named_case(&[(0, X), (0, Y)], Op::Unsub, 0, &[X, Y]);
+    w |= named_case(&[(0, X)], Op::Unsub, 0, &[X, Y]);
+    kani::cover!(w & 1 != 0, "existing subscription removed");
+    kani::cover!(w & 2 != 0, "unsubscribe from something not subscribed");
+}
+// NOT REGISTERED (does not finish within the budget, see reg/*.py): attributes removed
+// #[kani::proof]
+// #[kani::unwind(6)]
+// // NOT REGISTERED (does not finish within the budget, see reg/*.py): attributes removed
+// #[kani::stub(alloc::fmt::format, fmt_stub)]
+fn c14_punsubscribe_acks() {
+    let mut w = 0;
+    w |= named_case(&[(0, P)], Op::PUnsub, 0, &[P]);
+    w |= named_case(&[(0, P), (0, Q)], Op::PUnsub, 0, &[Q]);
+    w |= named_case(&[(0, X), (0, P)], Op::PUnsub, 0, &[P]);
+    w |= named_case(&[(0, P), (1, P)], Op::PUnsub, 1, &[P]);
+    w |= named_case(&[(0, P)], Op::PUnsub, 0, &[Q]);
+    kani::cover!(w & 1 != 0, "existing subscription removed");
+    kani::cover!(w & 2 != 0, "unsubscribe from something not subscribed");
+}
+// NOT REGISTERED (does not finish within the budget, see reg/*.py): attributes removed
+// #[kani::proof]
+// #[kani::unwind(6)]
+// // NOT REGISTERED (does not finish within the budget, see reg/*.py): attributes removed
+// #[kani::stub(alloc::fmt::format, fmt_stub)]
+fn c14_unsub_without_names() {
+    let mut w = 0;
+    w |= unsub_all_kind_case(&[(0, X), (0, Y)], false, 0);
+    w |= unsub_all_kind_case(&[(0, X), (0, P)], false, 0);
+    w |= unsub_all_kind_case(&[(0, X), (1, Y)], false, 1);
+    w |= unsub_all_kind_case(&[(0, P), (0, Q)], true, 0);
+    w |= unsub_all_kind_case(&[(0, P), (0, X)], true, 0);
+    kani::cover!(w & 1 != 0, "two subscriptions dropped by one call");
+    kani::cover!(w & 2 != 0, "the other kind of subscription survives");
+}
+/// UNSUBSCRIBE / PUNSUBSCRIBE by a connection that has nothing to unsubscribe: Redis still
+/// acknowledges (one reply per named channel with the unchanged count; one reply when no name is given).
+// NOT REGISTERED (does not finish within the budget, see reg/*.py): attributes removed
+// #[kani::proof]
+// #[kani::unwind(6)]
+// // NOT REGISTERED (does not finish within the budget, see reg/*.py): attributes removed
+// #[kani::stub(alloc::fmt::format, fmt_stub)]
+fn c14_unsub_nothing_kf() {
+    let mut w = 0;
+    w |= named_case(&[], Op::Unsub, 0, &[X]);
+    w |= named_case(&[(1, X)], Op::PUnsub, 0, &[P]);
+    w |= unsub_all_kind_case(&[(0, P)], false, 0);
+    kani::cover!(true, "reached");
+}
+// NOT REGISTERED (does not finish within the budget, see reg/*.py): attributes removed
+// #[kani::proof]
+// #[kani::unwind(6)]
+// // NOT REGISTERED (does not finish within the budget, see reg/*.py): attributes removed
+// #[kani::stub(alloc::fmt::format, fmt_stub)]
+fn c14_unsubscribe_all_conn() {
+    let mut w = 0;
+    w |= unsubscribe_all_case(&[(0, X), (0, P)], 0);
+    w |= unsubscribe_all_case(&[(0, X), (1, X)], 1);
+    w |= unsubscribe_all_case(&[(0, X), (1, P)], 0);
+    w |= unsubscribe_all_case(&[(0, P), (1, P)], 0);
+    w |= unsubscribe_all_case(&[(1, Y)], 0);
+    w |= unsubscribe_all_case(&[], 0);
+    kani::cover!(w & 1 != 0, "connection with a channel and a pattern removed");
+    kani::cover!(w & 2 != 0, "connection without subscriptions");
+    kani::cover!(w & 4 != 0, "the other connection keeps its subscription");
+}
+
+// =================================================================== (iii) publish
+/// matching relation used by the publish harnesses: PM[0] = "p*" matches the published channel,
+/// PM[1] = "q?" matches it; enumerated concretely (a symbolic relation puts `receivers.push`
+/// under a symbolic guard: out of memory).  The real matcher is decided separately by (i) and
+/// exercised inside publish by c14_publish_real_glob.
+static mut PM: [bool; 2] = [false, false];
+fn pm_stub(pattern: &[u8], _channel: &[u8]) -> bool {
+    unsafe {
+        if pattern[0] == b'p' {
+            PM[0]
+        } else {
+            PM[1]
+        }
+    }
+}
+
+/// publish on channel "x" (or `chan`) from the state `order`.  `region`: predicate of the
+/// de-duplication defect = some connection holds two subscriptions that match the message.
+fn publish_case(order: &[(usize, usize)], chan: &[u8], stub_pm: Option<[bool; 2]>, region: bool) -> u32 {
+    let ids = any_ids();
+    let m = model_of(order);
+    let mgr = build(&m, order, &ids);
+    let pm: [bool; 2] = match stub_pm {
+        Some(x) => x,
+        None => [ref_glob(b"p*", &[chan[0], chan[1]]), ref_glob(b"q?", &[chan[0], chan[1]])],
+    };
+    unsafe {
+        PM = pm;
+    }
+    let on_x = bytes_eq(chan, NAMES[X]);
+    let on_y = bytes_eq(chan, NAMES[Y]);
+    // expected deliveries per connection and subscription
+    let mut exp = [[false; NSUB]; NCONN];
+    let mut total = 0;
+    let mut dup = false;
+    let mut c = 0;
+    while c < NCONN {
+        exp[c][X] = m[c][X] && on_x;
+        exp[c][Y] = m[c][Y] && on_y;
+        exp[c][P] = m[c][P] && pm[0];
+        exp[c][Q] = m[c][Q] && pm[1];
+        let k = exp[c][X] as usize + exp[c][Y] as usize + exp[c][P] as usize + exp[c][Q] as usize;
+        total += k;
+        dup |= k >= 2;
+        c += 1;
+    }
+    let mut w = 0;
+    if dup == region {
+        let res = match mgr.publish(chan, b"msg") {
+            Ok(v) => v,
+            Err(_) => {
+                assert!(false, "publish must not fail");
+                Vec::new()
+            }
+        };
+        // every expected delivery appears exactly once ...
+        let mut c = 0;
+        while c < NCONN {
+            let mut n = 0;
+            while n < NSUB {
+                let mut cnt = 0;
+                let mut k = 0;
+                while k < 4 {
+                    if k < res.len() && res[k].0 == ids[c] {
+                        let same = match &res[k].1 {
+                            None => !is_pat(n),
+                            Some(pt) => is_pat(n) && bytes_eq(pt, NAMES[n]),
+                        };
+                        if same {
+                            cnt += 1;
+                        }
+                    }
+                    k += 1;
+                }
+                // (a channel delivery carries no name: both channel subscriptions map to `None`,
+                //  at most one of them can match the published channel)
+                let want = if is_pat(n) { exp[c][n] as usize } else { (exp[c][X] || exp[c][Y]) as usize };
+                assert!(cnt >= want, "a matching subscription gets no delivery (one receiver entry per matching subscription)");
+                assert!(cnt <= want, "a delivery to a connection/subscription that does not match, or a duplicate");
+                n += 1;
+            }
+            c += 1;
+        }
+        // ... and nothing else is returned: PUBLISH's reply is the number of deliveries
+        assert!(res.len() == total, "publish count == number of matching subscriptions");
+        let mut k = 0;
+        while k < 4 {
+            if k < res.len() {
+                assert!(res[k].0 == ids[0] || res[k].0 == ids[1], "delivery to an unknown connection");
+            }
+            k += 1;
+        }
+        check_state(&mgr, &m, &ids);
+        w = (total == 0) as u32 | ((total == 1) as u32) << 1 | ((total >= 2) as u32) << 2 | (dup as u32) << 3;
+        std::mem::forget(res);
+    }
+    std::mem::forget(mgr);
+    w
+}
+
+/// all four matching relations
+fn publish_all_pm(order: &[(usize, usize)], region: bool) -> u32 {
+    publish_case(order, b"x", Some([false, false]), region)
+        | publish_case(order, b"x", Some([true, false]), region)
+        | publish_case(order, b"x", Some([false, true]), region)
+        | publish_case(order, b"x", Some([true, true]), region)
+}
+/// only the relations that differ for a state with no "q?" subscription
+fn publish_p_only(order: &[(usize, usize)], region: bool) -> u32 {
+    publish_case(order, b"x", Some([false, false]), region) | publish_case(order, b"x", Some([true, false]), region)
+}
+// NOT REGISTERED (does not finish within the budget, see reg/*.py): attributes removed
+// #[kani::proof]
+// #[kani::unwind(6)]
+// #[kani::stub(alloc::fmt::format, fmt_stub)]
+// // NOT REGISTERED (does not finish within the budget, see reg/*.py): attributes removed
+// #[kani::stub(pattern_matches, pm_stub)]
+fn c14_publish_one_sub_rest() {
+    let mut w = 0;
+    w |= publish_case(&[], b"x", Some([false, false]), false);
+    w |= publish_case(&[(0, X)], b"x", Some([false, false]), false);
+    w |= publish_case(&[(0, Y)], b"x", Some([false, false]), false);
+    w |= publish_p_only(&[(0, P)], false);
+    kani::cover!(w & 1 != 0, "nobody receives");
+    kani::cover!(w & 2 != 0, "one delivery");
+}
+// NOT REGISTERED (does not finish within the budget, see reg/*.py): attributes removed
+// #[kani::proof]
+// #[kani::unwind(6)]
+// #[kani::stub(alloc::fmt::format, fmt_stub)]
+// // NOT REGISTERED (does not finish within the budget, see reg/*.py): attributes removed
+// #[kani::stub(pattern_matches, pm_stub)]
+fn c14_publish_two_conns_rest() {
+    let mut w = 0;
+    w |= publish_case(&[(0, X), (1, X)], b"x", Some([false, false]), false);
+    w |= publish_p_only(&[(0, X), (1, P)], false);
+    w |= publish_p_only(&[(0, P), (1, P)], false);
+    w |= publish_all_pm(&[(0, P), (1, Q)], false);
+    w |= publish_case(&[(0, Y), (1, X)], b"x", Some([false, false]), false);
+    kani::cover!(w & 4 != 0, "two deliveries");
+    kani::cover!(w & 2 != 0, "one delivery");
+}
+// NOT REGISTERED (does not finish within the budget, see reg/*.py): attributes removed
+// #[kani::proof]
+// #[kani::unwind(6)]
+// #[kani::stub(alloc::fmt::format, fmt_stub)]
+// // NOT REGISTERED (does not finish within the budget, see reg/*.py): attributes removed
+// #[kani::stub(pattern_matches, pm_stub)]
+fn c14_publish_one_conn_rest() {
+    let mut w = 0;
+    w |= publish_p_only(&[(0, X), (0, P)], false);
+    w |= publish_all_pm(&[(0, P), (0, Q)], false);
+    w |= publish_case(&[(0, X), (0, Y)], b"x", Some([false, false]), false);
+    kani::cover!(w & 2 != 0, "one delivery");
+    kani::cover!(w & 1 != 0, "nobody receives");
+}
+/// a connection with two matching subscriptions (channel + pattern, or two patterns)
+// NOT REGISTERED (does not finish within the budget, see reg/*.py): attributes removed
+// #[kani::proof]
+// #[kani::unwind(6)]
+// #[kani::stub(alloc::fmt::format, fmt_stub)]
+// // NOT REGISTERED (does not finish within the budget, see reg/*.py): attributes removed
+// #[kani::stub(pattern_matches, pm_stub)]
+fn c14_publish_dedup_kf() {
+    let mut w = 0;
+    w |= publish_p_only(&[(0, X), (0, P)], true);
+    w |= publish_all_pm(&[(0, P), (0, Q)], true);
+    kani::cover!(w & 8 != 0, "a connection with two matching subscriptions");
+}
+/// the real matcher inside publish: argument order and result are used as they should
+// NOT REGISTERED (does not finish within the budget, see reg/*.py): attributes removed
+// #[kani::proof]
+// #[kani::unwind(7)]
+// // NOT REGISTERED (does not finish within the budget, see reg/*.py): attributes removed
+// #[kani::stub(alloc::fmt::format, fmt_stub)]
+fn c14_publish_real_glob() {
+    let mut w = 0;
+    w |= publish_case(&[(0, P), (1, Q)], b"pa", None, false);
+    w |= publish_case(&[(0, P), (1, Q)], b"qz", None, false);
+    w |= publish_case(&[(0, P), (1, X)], b"zz", None, false);
+    kani::cover!(w & 2 != 0, "one delivery");
+    kani::cover!(w & 1 != 0, "nobody receives");
+}
+
+// ---- single-instance manager harnesses (one instance costs 100-200 s; see reg/c14_pubsub.py)
+#[kani::proof]
+#[kani::unwind(6)]
+#[kani::stub(alloc::fmt::format, fmt_stub)]
+fn c14_sub_second_conn() {
+    let w = named_case(&[(0, X)], Op::Sub, 1, &[X]);
+    kani::cover!(w & 2 != 0, "new subscription acknowledged");
+}
+#[kani::proof]
+#[kani::unwind(6)]
+#[kani::stub(alloc::fmt::format, fmt_stub)]
+fn c14_unsub_last() {
+    let w = named_case(&[(0, X)], Op::Unsub, 0, &[X]);
+    kani::cover!(w & 1 != 0, "existing subscription removed");
+}
+// NOT REGISTERED (does not finish within the budget, see reg/*.py): attributes removed
+// #[kani::proof]
+// #[kani::unwind(6)]
+// #[kani::stub(alloc::fmt::format, fmt_stub)]
+// // NOT REGISTERED (does not finish within the budget, see reg/*.py): attributes removed
+// #[kani::stub(pattern_matches, pm_stub)]
+fn c14_publish_single_sub() {
+    let w = publish_case(&[(0, X)], b"x", Some([false, false]), false);
+    kani::cover!(w & 2 != 0, "one delivery");
+}
+#[kani::proof]
+#[kani::unwind(6)]
+#[kani::stub(alloc::fmt::format, fmt_stub)]
+fn c14_unsub_unknown_conn_kf() {
+    let w = named_case(&[], Op::Unsub, 0, &[X]);
+    kani::cover!(true, "reached");
 }
